@@ -5,7 +5,7 @@
    This generalises FilterRoundTrip.filter_json_roundtrip (the order Filter::as_json writes). *)
 From Coq Require Import List NArith Lia Bool.
 Import ListNotations.
-From Pocket Require Import Bytes Layout Codec JsonParse EscapeRoundTrip JsonRoundTrip FilterRoundTrip.
+From Pocket Require Import Bytes Layout Codec JsonParse EscapeRoundTrip JsonRoundTrip FilterRoundTrip JsonSkip.
 Open Scope N_scope.
 Arguments N.add : simpl never. Arguments N.sub : simpl never. Arguments N.mul : simpl never.
 Arguments N.eqb : simpl never. Arguments N.ltb : simpl never. Arguments N.leb : simpl never.
@@ -24,7 +24,8 @@ Qed.
 (* ====================== members ====================== *)
 Inductive mem :=
 | MIds (l : list bytes) | MAuthors (l : list bytes) | MKinds (l : list N)
-| MTag (t : tagspec) | MLimit (u : N) | MSince (u : N) | MUntil (u : N).
+| MTag (t : tagspec) | MLimit (u : N) | MSince (u : N) | MUntil (u : N)
+| MUnk (k : bytes) (v : jtree).        (* a member the parser does not know: key text, value tree *)
 
 Definition mtext (m : mem) : bytes :=
   match m with
@@ -35,7 +36,18 @@ Definition mtext (m : mem) : bytes :=
   | MLimit u => [34;108;105;109;105;116;34;58] ++ dec u
   | MSince u => [34;115;105;110;99;101;34;58] ++ dec u
   | MUntil u => [34;117;110;116;105;108;34;58] ++ dec u
+  | MUnk k v => 34 :: k ++ 34 :: 58 :: jtext v
   end.
+
+(* a key the filter parser does not know: skippable, none of the six names, not of the form #<letter> *)
+Definition ftagkey (l : bytes) : bool :=
+  match l with h :: letter :: q :: _ => (h =? 35) && is_letter letter && (q =? 34) | _ => false end.
+Definition unknown_fkey (k : bytes) : Prop :=
+  skippable_str k /\ forall rest,
+    starts_with k_ids (k ++ 34 :: rest) = false /\ starts_with k_authors (k ++ 34 :: rest) = false /\
+    starts_with k_kinds (k ++ 34 :: rest) = false /\ starts_with k_since (k ++ 34 :: rest) = false /\
+    starts_with k_until (k ++ 34 :: rest) = false /\ starts_with k_limit (k ++ 34 :: rest) = false /\
+    ftagkey (k ++ 34 :: rest) = false.
 
 Definition mem_ok (m : mem) : Prop :=
   match m with
@@ -43,6 +55,7 @@ Definition mem_ok (m : mem) : Prop :=
   | MKinds l => Forall (fun k => k < 65536) l
   | MTag t => tag_ok t
   | MLimit u | MSince u | MUntil u => u < 18446744073709551616
+  | MUnk k v => unknown_fkey k /\ jwf v /\ jdepth v <= 128
   end.
 
 (* which member it is: the six fixed keys, or the tag letter *)
@@ -50,11 +63,13 @@ Definition key (m : mem) : N :=
   match m with
   | MIds _ => 0 | MAuthors _ => 1 | MKinds _ => 2 | MLimit _ => 3 | MSince _ => 4 | MUntil _ => 5
   | MTag t => 6 + fst t
+  | MUnk k _ => 1000 + fold_left (fun acc c => acc * 257 + c + 1) k 0     (* any code: distinct codes are a hypothesis *)
   end.
 
 Definition seen (st : flst) (m : mem) : bool :=
   match m with
   | MTag t => existsb (fun x => x =? fst t) (fl_letters st)
+  | MUnk _ _ => false
   | _ => has_bit (fl_found st) (2 ^ key m)
   end.
 
@@ -70,6 +85,7 @@ Definition apply (m : mem) (K : bytes) (st : flst) : flst :=
   | MLimit u => with_out st (take 12 (fl_out st) ++ le32 (N.min u 4294967295) ++ drop 16 (fl_out st)) (set_bit c FL_LIMIT)
   | MSince u => with_out st (take 16 (fl_out st) ++ le64 u ++ drop 24 (fl_out st)) (set_bit c FL_SINCE)
   | MUntil u => with_out st (take 24 (fl_out st) ++ le64 u ++ drop 32 (fl_out st)) (set_bit c FL_UNTIL)
+  | MUnk _ _ => st
   end.
 
 Fixpoint run (ms : list mem) (tail : bytes) (st : flst) : flst :=
@@ -92,7 +108,7 @@ Lemma step_ok m st R tail fuel : mem_ok m -> seen st m = false -> 32 <= len (fl_
   = filter_members fuel (apply m (members_close R tail) st) (members_close R tail).
 Proof.
   intros Hok Hs Hlen. set (K := members_close R tail).
-  destruct m as [l|l|l|t|u|u|u]; cbn [mem_ok seen key] in Hok, Hs.
+  destruct m as [l|l|l|t|u|u|u|uk uv]; cbn [mem_ok seen key] in Hok, Hs.
   - apply (stage_step _ (105 :: 100 :: 115 :: 34 :: 58 :: 91 :: hexlist l ++ 93 :: K)).
     + cbn [mtext app]. rewrite <- ?app_assoc. reflexivity.
     + apply (fmem_ids st l K Hok Hs).
@@ -118,6 +134,17 @@ Proof.
     apply (stage_step _ (117 :: 110 :: 116 :: 105 :: 108 :: 34 :: 58 :: dec u ++ K)).
     + cbn [mtext app]. rewrite <- ?app_assoc. reflexivity.
     + apply (fmem_until st _ _ _ u K Hok (members_close_follows R tail) Hs E La Lo).
+  - (* an unknown member: skipped, the state is left alone *)
+    destruct Hok as ([Hk Hn] & Hv & Hd). cbn [apply].
+    apply (fm_step fuel st _ (uk ++ 34 :: 58 :: jtext uv ++ K) K st).
+    + cbn [members_close mtext]. rewrite eat_ws_commas_comma. cbn [app]. rewrite <- app_assoc. cbn [app].
+      apply eat_ws_commas_stop; [reflexivity|lia].
+    + unfold filter_member. destruct (Hn (58 :: jtext uv ++ K)) as (N1 & N2 & N3 & N4 & N5 & N6 & N7).
+      rewrite N1, N2, N3, N4, N5, N6.
+      assert (Hb : burn_member (uk ++ 34 :: 58 :: jtext uv ++ K) = Ok K).
+      { apply burn_member_skips; try assumption. destruct (members_close_head R tail) as [c0 [r0 [E [->| ->]]]]; subst K; rewrite E; eexists _, _; split; try reflexivity; auto. }
+      unfold ftagkey in N7. destruct (uk ++ 34 :: 58 :: jtext uv ++ K) as [|h [|letter [|q r]]] eqn:El; try (rewrite Hb; reflexivity).
+      rewrite N7. rewrite Hb. reflexivity.
 Qed.
 
 (* a member does not disturb what the parser remembers about the OTHER members *)
@@ -127,7 +154,7 @@ Proof.
   assert (B : forall i j, i <> j -> has_bit (fl_found st) (2 ^ i) = false ->
               has_bit (set_bit (fl_found st) (2 ^ i)) (2 ^ j) = has_bit (fl_found st) (2 ^ j)).
   { intros i j Hij H. rewrite (has_set_bit _ i j H). apply N.eqb_neq in Hij. rewrite Hij. reflexivity. }
-  destruct m as [l|l|l|t|u|u|u]; destruct m' as [l'|l'|l'|t'|u'|u'|u']; cbn [key] in Hk; try congruence;
+  destruct m as [l|l|l|t|u|u|u|uk uv]; destruct m' as [l'|l'|l'|t'|u'|u'|u'|uk' uv']; cbn [key] in Hk; try congruence;
     cbn [seen apply key with_out fl_found fl_letters] in *; try reflexivity;
     try (first [apply (B 0)|apply (B 1)|apply (B 2)|apply (B 3)|apply (B 4)|apply (B 5)]; [lia|exact Hs]).
   cbn [existsb]. destruct (N.eqb_spec (fst t) (fst t')) as [E|_]; [exfalso; apply Hk; rewrite E; reflexivity|reflexivity].
@@ -135,7 +162,7 @@ Qed.
 
 Lemma len_out_apply m K st : 32 <= len (fl_out st) -> len (fl_out (apply m K st)) = len (fl_out st).
 Proof.
-  intros H. destruct m as [l|l|l|t|u|u|u]; cbn [apply with_out fl_out]; try reflexivity.
+  intros H. destruct m as [l|l|l|t|u|u|u|uk uv]; cbn [apply with_out fl_out]; try reflexivity.
   - destruct (split3 (fl_out st) 12 4 ltac:(lia)) as (E & La & Lo). rewrite E at 3. rewrite !len_app, len_le32, La, Lo. reflexivity.
   - destruct (split3 (fl_out st) 16 8 ltac:(lia)) as (E & La & Lo). rewrite E at 3. rewrite !len_app, len_le64, La, Lo. reflexivity.
   - destruct (split3 (fl_out st) 24 8 ltac:(lia)) as (E & La & Lo). rewrite E at 3. rewrite !len_app, len_le64, La, Lo. reflexivity.
@@ -221,7 +248,7 @@ Lemma run_out ms : forall tail st a12 x y z R, len a12 = 12 -> fl_out st = a12 +
   fl_out (run ms tail st) = a12 ++ le32 (lim_of ms x) ++ le64 (sin_of ms y) ++ le64 (unt_of ms z) ++ R.
 Proof.
   induction ms as [|m r IH]; intros tail st a12 x y z R La Eo; [exact Eo|].
-  cbn [run]. destruct m as [l|l|l|t|u|u|u]; cbn [lim_of sin_of unt_of];
+  cbn [run]. destruct m as [l|l|l|t|u|u|u|uk uv]; cbn [lim_of sin_of unt_of];
     try (apply (IH tail _ a12 x y z R La); cbn [apply fl_out]; exact Eo).
   - apply (IH tail _ a12 _ y z R La). cbn [apply with_out fl_out]. rewrite Eo.
     rewrite (take_at a12 _ 12 La).
@@ -268,19 +295,19 @@ Qed.
 Lemma ids_of_from ms : forall acc, ids_of ms acc = acc \/ In (MIds (ids_of ms acc)) ms.
 Proof.
   induction ms as [|m r IH]; intros acc; [left; reflexivity|].
-  destruct m as [l| | | | | | ]; cbn [ids_of]; try (destruct (IH acc) as [E|H]; [left; exact E|right; right; exact H]).
+  destruct m as [l| | | | | | | ]; cbn [ids_of]; try (destruct (IH acc) as [E|H]; [left; exact E|right; right; exact H]).
   destruct (IH l) as [E|H]; [right; left; rewrite E; reflexivity|right; right; exact H].
 Qed.
 Lemma au_of_from ms : forall acc, au_of ms acc = acc \/ In (MAuthors (au_of ms acc)) ms.
 Proof.
   induction ms as [|m r IH]; intros acc; [left; reflexivity|].
-  destruct m as [ |l| | | | | ]; cbn [au_of]; try (destruct (IH acc) as [E|H]; [left; exact E|right; right; exact H]).
+  destruct m as [ |l| | | | | | ]; cbn [au_of]; try (destruct (IH acc) as [E|H]; [left; exact E|right; right; exact H]).
   destruct (IH l) as [E|H]; [right; left; rewrite E; reflexivity|right; right; exact H].
 Qed.
 Lemma ks_of_from ms : forall acc, ks_of ms acc = acc \/ In (MKinds (ks_of ms acc)) ms.
 Proof.
   induction ms as [|m r IH]; intros acc; [left; reflexivity|].
-  destruct m as [ | |l| | | | ]; cbn [ks_of]; try (destruct (IH acc) as [E|H]; [left; exact E|right; right; exact H]).
+  destruct m as [ | |l| | | | | ]; cbn [ks_of]; try (destruct (IH acc) as [E|H]; [left; exact E|right; right; exact H]).
   destruct (IH l) as [E|H]; [right; left; rewrite E; reflexivity|right; right; exact H].
 Qed.
 Lemma tags_of_ok ms : Forall mem_ok ms -> Forall tag_ok (tags_of ms).
@@ -289,7 +316,7 @@ Proof.
 Qed.
 
 Lemma mtext_nonempty m : mtext m <> [].
-Proof. destruct m as [l|l|l|t|u|u|u]; cbn [mtext]; discriminate. Qed.
+Proof. destruct m as [l|l|l|t|u|u|u|uk uv]; cbn [mtext]; discriminate. Qed.
 
 (* the second-pass specs with a recorded start of any shape *)
 Lemma opt_hex_gen so ids fuel A c2 B F off endp : Forall (fun x => wf_bytes x /\ len x = 32) ids ->
@@ -547,19 +574,19 @@ Proof. intros acc H. destruct (ks_of_from ms acc) as [E|Hin]; [exact E|]. exfals
 Lemma lim_of_from ms : forall acc, lim_of ms acc = acc \/ exists u, In (MLimit u) ms /\ lim_of ms acc = N.min u 4294967295.
 Proof.
   induction ms as [|m r IH]; intros acc; [left; reflexivity|].
-  destruct m as [ | | | |u| | ]; cbn [lim_of]; try (destruct (IH acc) as [E|[v [H E]]]; [left; exact E|right; exists v; split; [right; exact H|exact E]]).
+  destruct m as [ | | | |u| | |uk uv]; cbn [lim_of]; try (destruct (IH acc) as [E|[v [H E]]]; [left; exact E|right; exists v; split; [right; exact H|exact E]]).
   destruct (IH (N.min u 4294967295)) as [E|[v [H E]]]; right; [exists u; split; [left; reflexivity|exact E]|exists v; split; [right; exact H|exact E]].
 Qed.
 Lemma sin_of_from ms : forall acc, sin_of ms acc = acc \/ In (MSince (sin_of ms acc)) ms.
 Proof.
   induction ms as [|m r IH]; intros acc; [left; reflexivity|].
-  destruct m as [ | | | | |u| ]; cbn [sin_of]; try (destruct (IH acc) as [E|H]; [left; exact E|right; right; exact H]).
+  destruct m as [ | | | | |u| | ]; cbn [sin_of]; try (destruct (IH acc) as [E|H]; [left; exact E|right; right; exact H]).
   destruct (IH u) as [E|H]; [right; left; rewrite E; reflexivity|right; right; exact H].
 Qed.
 Lemma unt_of_from ms : forall acc, unt_of ms acc = acc \/ In (MUntil (unt_of ms acc)) ms.
 Proof.
   induction ms as [|m r IH]; intros acc; [left; reflexivity|].
-  destruct m as [ | | | | | |u]; cbn [unt_of]; try (destruct (IH acc) as [E|H]; [left; exact E|right; right; exact H]).
+  destruct m as [ | | | | | |u| ]; cbn [unt_of]; try (destruct (IH acc) as [E|H]; [left; exact E|right; right; exact H]).
   destruct (IH u) as [E|H]; [right; left; rewrite E; reflexivity|right; right; exact H].
 Qed.
 Lemma lim_of_in ms : forall acc u, NoDup (map key ms) -> In (MLimit u) ms -> lim_of ms acc = N.min u 4294967295.
@@ -637,4 +664,35 @@ Proof.
   eexists _, _, _, _. split.
   - apply (filter_any_order ms tail out Hwf Hcap).
   - rewrite (filter_any_order ms' tail' out Hwf') by (rewrite Ef; exact Hcap). rewrite Ef. reflexivity.
+Qed.
+
+(* ====================== unknown members ====================== *)
+From Pocket Require Import EventAnyOrder.
+
+Definition filter_names : list bytes :=
+  [[105; 100; 115]; [97; 117; 116; 104; 111; 114; 115]; [107; 105; 110; 100; 115]; [115; 105; 110; 99; 101];
+   [117; 110; 116; 105; 108]; [108; 105; 109; 105; 116]].
+
+(* a key without quote or backslash that is none of the six names and not of the form #<letter> is unknown to the filter parser *)
+Lemma plain_unknown_fkey k : Forall (fun c => c <> 34 /\ c <> 92) k -> ~ In k filter_names ->
+  (forall L, is_letter L = true -> k <> [35; L]) -> unknown_fkey k.
+Proof.
+  intros Hp Hn Ht. split; [apply plain_skippable; exact Hp|].
+  assert (Hq : ~ In 34 k) by (intros X; rewrite Forall_forall in Hp; destruct (Hp _ X) as [Y _]; apply Y; reflexivity).
+  assert (G : forall name rest, In name filter_names -> starts_with (name ++ [34]) (k ++ 34 :: rest) = false).
+  { intros name rest Hin. destruct (starts_with (name ++ [34]) (k ++ 34 :: rest)) eqn:E; [|reflexivity]. exfalso.
+    apply Hn. assert (k = name); [|subst; exact Hin]. apply (starts_with_name name k rest); [|exact Hq|exact E].
+    unfold filter_names in Hin. cbn [In] in Hin. intros X.
+    repeat (destruct Hin as [<-|Hin]; [cbn [In] in X; repeat (destruct X as [X|X]; [discriminate X|]); exact X|]). exact Hin. }
+  intros rest. unfold filter_names in G.
+  refine (conj (G [105; 100; 115] rest _) (conj (G [97; 117; 116; 104; 111; 114; 115] rest _) (conj (G [107; 105; 110; 100; 115] rest _)
+          (conj (G [115; 105; 110; 99; 101] rest _) (conj (G [117; 110; 116; 105; 108] rest _) (conj (G [108; 105; 109; 105; 116] rest _) _))))));
+    try (cbn [In]; auto 8).
+  (* not a tag key *)
+  unfold ftagkey. destruct k as [|h [|letter [|q r]]]; cbn [app].
+  - destruct rest as [|a0 [|b0 r0]]; reflexivity.
+  - destruct rest as [|b0 r0]; [reflexivity|]. destruct (h =? 35); reflexivity.
+  - destruct (N.eqb_spec h 35) as [->|]; [|reflexivity]. cbn [andb].
+    destruct (is_letter letter) eqn:El; [|reflexivity]. exfalso. apply (Ht letter El). reflexivity.
+  - destruct (N.eqb_spec q 34) as [->|]; [|rewrite andb_false_r; reflexivity]. exfalso. apply Hq. right. right. left. reflexivity.
 Qed.
